@@ -211,7 +211,7 @@ type run struct {
 	hTrls    []hdrTok // handler trailers
 	errMsg   string
 	errDet   []*anypb.Any
-	faulty   bool // the scenario injects a stream fault somewhere
+	faulty   bool   // the scenario injects a stream fault somewhere
 	rpcID    string // set when the run shares its Transcoder with other runs
 
 	mu       sync.Mutex
